@@ -562,9 +562,9 @@ class Builder:
         c.features.add("executemany")
         n = r.randint(2, 9)
         named = r.random() < 0.5
-        two = named and r.random() < 0.5
+        two = named and r.random() < 0.6
         # "a2": the second bind's name has the first one's name as a prefix
-        n2 = "a2" if r.random() < 0.3 else "z"
+        n2 = "a2" if r.random() < 0.5 else "z"
         if two and n2 == "a2":
             c.features.add("prefix_names")
         rows = []
